@@ -44,11 +44,11 @@ def pmenu(n, small=False):
     return c01.pmenu(n, small) + [["sl", None, None, 2], ["sl", -2, None, None]]
 
 
-def _spec(variants, vk, k=0):
+def _spec(variants, vk, k=0, opt=None):
     nd = len(variants)
     labels = [D.labels_of(kd, LENS[i], od) for i, (kd, od) in enumerate(variants)]
     return D.spec(NAMES[:nd], labels, [kd for kd, od in variants], vk=vk, var=D.VARIANTS[k % len(D.VARIANTS)],
-                  attrs={"units": "m", "hist": [1, 2]})
+                  attrs={"units": "m", "hist": [1, 2]}, opt=opt)
 
 
 def shards(tier):
@@ -76,6 +76,8 @@ def shards(tier):
 RHS = ["scalar", "array", "row", "zerod"]
 LSP = ["setitem", "put", "putdict", "putaxis", "locset"]
 PSP = ["ixset", "ilocset", "putpos"]
+OPT_LSP = ["ixset", "locset", "putlab"]            # spellings on an array whose own mode is 'position'
+OPT_PSP = ["setitem", "put", "ilocset", "putdict"]
 
 
 def _applicable(sp, ixs, nd):
@@ -93,6 +95,7 @@ def cases(sh, tier):
     v = [tuple(x) for x in sh["v"]]
     nd = len(v)
     s = _spec(v, sh["vk"], sh["k"])
+    so = _spec(v, sh["vk"], sh["k"], opt="position")
     if sh["part"] == "ndmask":
         shape = D.shape_of(s)
         n = int(np.prod(shape))
@@ -123,6 +126,13 @@ def cases(sh, tier):
                             yield {"a": s, "ix": ixs, "sp": sp, "mode": mode, "rhs": rhs, "inplace": (c + r) % 2 == 1}
                     else:
                         yield {"a": s, "ix": ixs, "sp": sp, "mode": mode, "rhs": rhs, "inplace": True}
+            # an array whose OWN indexing mode is 'position' (built while indexing.by = 'position', the option restored afterwards): a[..] =
+            # and put are positional, .ix[..] = toggles to labels, .loc / .iloc keep their meaning
+            if nd <= 2 and c % 3 == 0:
+                osps = OPT_LSP if mode == "label" else OPT_PSP
+                sp = osps[(c // 3) % len(osps)]
+                rhs = RHS[(c // 3) % len(RHS)]
+                yield {"a": so, "ix": ixs, "sp": sp, "mode": mode, "rhs": rhs, "inplace": (c // 3) % 2 == 0}
 
 
 CAST_VALUES = {"bool": True, "int": 7, "float": 2.5, "nan": float("nan"), "str": "q", "intarr": [7, 8], "floatarr": [2.5, float("nan")]}
@@ -195,7 +205,7 @@ def check(case):
     try:
         alts = R.resolve_all(ra, s["kinds"], case["ix"], mode=mode)
     except R.RefRaises:
-        got = call(spell.put, a, case["ix"], 1, case["sp"], s["kinds"], **({} if case["sp"] in ("setitem", "locset", "ixset", "ilocset") else {"inplace": case["inplace"]}))
+        got = call(spell.put, a, case["ix"], 1, case["sp"], s["kinds"], mode=mode, **({} if case["sp"] in ("setitem", "locset", "ixset", "ilocset") else {"inplace": case["inplace"]}))
         if isinstance(got, Raised) or common.snap(a) == before:
             return ok("raises-or-unchanged")
         return bad("index whose read raises IndexError modified the array: {}".format(common.describe(a)))
@@ -220,10 +230,10 @@ def check(case):
         expect[dst] = rb[src] if src else rb[()]
         ncell += 1
     kw = {}
-    putfam = case["sp"] in ("put", "putdict", "putaxis", "putpos")
+    putfam = case["sp"] in ("put", "putdict", "putaxis", "putpos", "putlab")
     if putfam:
         kw["inplace"] = case["inplace"]
-    ret = call(spell.put, a, case["ix"], rhs, case["sp"], s["kinds"], **kw)
+    ret = call(spell.put, a, case["ix"], rhs, case["sp"], s["kinds"], mode=mode, **kw)
     if isinstance(ret, Raised):
         return bad("assignment raised {} (selection shape {}, rhs {})".format(ret, selshape, case["rhs"]), klass="unexpected-exception")
     if putfam and not case["inplace"]:
